@@ -107,6 +107,16 @@ fn adv_text(r: &mut Rng) -> (String, &'static str) {
     }
 }
 
+/// one statement record in ten carries no text at all (no payee, no reference / code, no
+/// note): the importer then prints the header `DATE * ` and the postings directly under it
+fn blank_record(r: &mut Rng, st: &mut Stats) -> bool {
+    let b = r.chance(1, 10);
+    if b {
+        st.count("record:no_payee_no_code_no_note");
+    }
+    b
+}
+
 fn code_text(r: &mut Rng) -> (Option<String>, &'static str) {
     match r.below(12) {
         0 | 1 => (None, "none"),
@@ -226,8 +236,11 @@ fn gen_camt(r: &mut Rng, st: &mut Stats) -> Run {
     // the entries of a statement lie within a week that reaches or crosses a calendar boundary
     let week = caldate::Window::new(r, caldate::YEAR_LO, caldate::YEAR_HI, 6);
     for k in 0..n {
-        let (payee, ptag) = adv_text(r);
-        let (code, cotag) = code_text(r);
+        // one record in ten states nothing but date and amount: no payee text, no reference.
+        // It is printed as `DATE * ` with the postings directly below.
+        let blank = blank_record(r, st);
+        let (payee, ptag) = if blank { (String::new(), "empty") } else { adv_text(r) };
+        let (code, cotag) = if blank { (None, "none") } else { code_text(r) };
         st.count(&format!("text:payee:{}", ptag));
         st.count(&format!("text:code:{}", cotag));
         let credit = r.chance(2, 5);
@@ -289,8 +302,8 @@ fn gen_camt(r: &mut Rng, st: &mut Stats) -> Run {
         writeln!(y, "format:\n{}", p.trim_end()).unwrap();
     }
     let dot = if r.chance(1, 2) { "(?s)" } else { "" };
-    writeln!(y, "rewrite:\n  - matcher:\n      additional_transaction_info: {}", yaml_str(&format!("{}^K\\d+ (?P<payee>.*)$", dot))).unwrap();
-    writeln!(y, "  - matcher:\n      additional_entry_info: {}", yaml_str(&format!("{}^N\\d+ (?P<payee>.*)$", dot))).unwrap();
+    writeln!(y, "rewrite:\n  - matcher:\n      additional_transaction_info: {}", yaml_str(&format!("{}^K\\d+ ?(?P<payee>.*)$", dot))).unwrap();
+    writeln!(y, "  - matcher:\n      additional_entry_info: {}", yaml_str(&format!("{}^N\\d+ ?(?P<payee>.*)$", dot))).unwrap();
     writeln!(y, "  - matcher:\n      payee: \"(?i)migros|coop\"\n    account: Expenses:Grocery").unwrap();
     writeln!(y, "  - matcher:\n      payee: \"Okane\"\n    account: \"Assets:Wire:Money Bank\"\n    pending: true").unwrap();
     // the opening-balance transaction is a record of the statement as well
@@ -367,8 +380,9 @@ fn gen_csv(r: &mut Rng, st: &mut Stats) -> Run {
             writeln!(y, "  fields:\n    date: Date\n    payee: Payee\n    amount: Amount\n    balance: Balance\n    note: Note\n    category: Cat\n    commodity: Ccy\n    charge: Fee").unwrap();
             t.push_str("Date,Payee,Amount,Balance,Note,Cat,Ccy,Fee\n");
             for k in 0..n {
-                let (payee, ptag) = text_of(r, junk_row.is_some());
-                let (note, ntag) = text_of(r, junk_row.is_some());
+                let blank = blank_record(r, st);
+                let (payee, ptag) = if blank { (String::new(), "empty") } else { text_of(r, junk_row.is_some()) };
+                let (note, ntag) = if blank { (String::new(), "empty") } else { text_of(r, junk_row.is_some()) };
                 let (ccy, ctag) = comm_of(r, "CHF", junk_row.is_some());
                 st.count(&format!("text:payee:{}", ptag));
                 st.count(&format!("text:note:{}", ntag));
@@ -405,7 +419,9 @@ fn gen_csv(r: &mut Rng, st: &mut Stats) -> Run {
             writeln!(y, "  fields:\n    date: Date\n    payee: Payee\n    credit: In\n    debit: Out\n    secondary_amount: SAmt\n    secondary_commodity: SCcy\n    rate: Rate").unwrap();
             t.push_str("Date,Payee,In,Out,SAmt,SCcy,Rate\n");
             for k in 0..n {
-                let (payee, ptag) = text_of(r, junk_row.is_some());
+                // a blank record has an empty Payee cell: no rule captures a code or a payee
+                let blank = blank_record(r, st);
+                let (payee, ptag) = if blank { (String::new(), "empty") } else { text_of(r, junk_row.is_some()) };
                 st.count(&format!("text:payee:{}", ptag));
                 let credit = r.chance(1, 2);
                 // usually unsigned; a negative figure in the credit (debit) column is a reversal
@@ -439,7 +455,9 @@ fn gen_csv(r: &mut Rng, st: &mut Stats) -> Run {
                 let (dtext, idate) = row_date(r, st);
                 it.date = idate;
                 intended.push(it);
-                writeln!(t, "{},{},{},{},{},{},{}", csv_field(&dtext), csv_field(&format!("Debit {} {}", if junk_row.is_some() { *r.pick(&["1234", "77", "12"]) } else { *r.pick(&["1234", "A)B", "", "77", "Z-9", "8/8", "x;y", "12"]) }, payee)),
+                let code_word = if junk_row.is_some() { *r.pick(&["1234", "77", "12"]) } else { *r.pick(&["1234", "A)B", "", "77", "Z-9", "8/8", "x;y", "12"]) };
+                let payee_cell = if blank { String::new() } else { format!("Debit {} {}", code_word, payee) };
+                writeln!(t, "{},{},{},{},{},{},{}", csv_field(&dtext), csv_field(&payee_cell),
                     csv_field(if credit { &a } else { "" }), csv_field(if credit { "" } else { &a }),
                     csv_field(&samt), csv_field(&sc), csv_field(&rate)).unwrap();
             }
@@ -593,8 +611,17 @@ fn gen_csv_text_first(r: &mut Rng, st: &mut Stats) -> Run {
     t.push('\n');
     let mut intended: Vec<Intent> = Vec::new();
     for _ in 0..n {
-        let (payee, pclass) = special_start_text(r);
-        let (note, nclass) = special_start_text(r);
+        // a blank record: payee and note cells both empty or white space only
+        let blank = blank_record(r, st);
+        let blank_cell = |r: &mut Rng| -> (String, &'static str) {
+            if r.chance(2, 3) {
+                (String::new(), "empty")
+            } else {
+                ((*r.pick(&[" ", "\t", "  "])).to_string(), "mark_only")
+            }
+        };
+        let (payee, pclass) = if blank { blank_cell(r) } else { special_start_text(r) };
+        let (note, nclass) = if blank { blank_cell(r) } else { special_start_text(r) };
         st.count(&format!("csv_first_cell:{}", if first == 0 { pclass } else { nclass }));
         st.count(&format!("text:payee:start_{}", pclass));
         st.count(&format!("text:note:start_{}", nclass));
@@ -1027,7 +1054,7 @@ pub fn run(o: &Opts) {
     let mut st = Stats::new();
     // smaller files in the thorough tier: coqc memory grows with the size of the case literal
     let mut sh = Shards::new(&o.out, if o.thorough { o.shards * 6 } else { o.shards }, HEADER);
-    st.rule = "statement files for the three importers (Camt053 XML with payee captured from AddtlTxInf/AddtlNtryInf, code from AcctSvcrRef, currency attribute, charges, foreign amounts with rates; CSV in three date-first layouts: amount/balance/note/category/commodity/charge columns, credit/debit with secondary amount and rate, template payee - and, for a third of the CSV statements, a text-first layout: the FIRST column is the payee or the note, date / amount / balance / an ignored column follow in random order, fields by label or by index, first label possibly `#Payee` `# of record` `=Payee`, delimiter , ; tab or |, written by an RFC 4180 writer that quotes only what must be quoted, CRLF now and then, one file in ten behind a byte order mark; its payee and note cells begin with `#` `# ` `##` `\"` `\'` `;` `=` `+` `-` `@` space, tab, U+FEFF, `//` `%` `!` `*` `|` `,` `\\`, are such a mark alone, or are empty; Viseca text); every record is dated on purpose (harness/src/caldate.rs): a quarter in the days around New Year whose ISO week belongs to the neighbouring year, 1 January / 31 December, 29 February and the 28 February / 1 March of 1900 and 2100, month ends and starts, 1900-01-01 / 2100-12-31 / 1970-01-01 / 2038-01-19 / 2069-12-31, else uniform over 1900-2100 (1970-2069 where the year has two digits: Viseca, CSV `%d.%m.%y`), the records of one statement within a week that reaches or crosses the drawn day; CSV dates under %Y-%m-%d, %Y/%m/%d, %d.%m.%Y, %m/%d/%Y, %d.%m.%y, `%d %b %Y`; Camt053 dates as Dt or (1 in 8) DtTm with offsets up to +14:00 / -12:00; the generator's own date for each CSV record - and in the text-first layout its payee as one line - is checked against the transaction read back, and a statement without a junk cell that the importer refuses is a case (ModelMismatch); whose text fields are drawn from an adversarial pool (`;`, LF/CR/CRLF, injected transaction text, leading `(` `*` `!`, double space, tab, `:tag:`, `key: value`, non-ASCII, outer white space incl. U+3000/U+00A0, 2 kB fields, empty) with varied amounts (grouping commas, scales 0-5; CSV amount / credit / debit / balance / charge / secondary-amount cells bare, commodity-suffixed or prefixed with `$` / a currency code and the minus sign before or after the prefix: -$1.46, $-1,950.25, -USD 5, USD -5; the generator's own figure for each cell - also the rate and the secondary amount of a converted record - is checked against the transaction read back; one CSV statement in five has one amount / credit / debit / balance / charge / secondary-amount / rate cell in a notation okane's number grammar does not know or with trailing junk (6'540.35, 1 234.56, 12.50-, (12.50), +12.50, 1.234,56, 12,50, 1,23,456.78, 12..5, 12.50*, 5 USD EUR, --5, 1.5e0, 12.5x): refused, or read back as that very figure) and configured precisions 0-30; import + to_double_entry, printed as ImportCmd does, re-read with parse_ledger; non-trivial = some text field holds a character outside [A-Za-z0-9 ]; distinct by input + configuration".into();
+    st.rule = "statement files for the three importers (Camt053 XML with payee captured from AddtlTxInf/AddtlNtryInf, code from AcctSvcrRef, currency attribute, charges, foreign amounts with rates; CSV in three date-first layouts: amount/balance/note/category/commodity/charge columns, credit/debit with secondary amount and rate, template payee - and, for a third of the CSV statements, a text-first layout: the FIRST column is the payee or the note, date / amount / balance / an ignored column follow in random order, fields by label or by index, first label possibly `#Payee` `# of record` `=Payee`, delimiter , ; tab or |, written by an RFC 4180 writer that quotes only what must be quoted, CRLF now and then, one file in ten behind a byte order mark; its payee and note cells begin with `#` `# ` `##` `\"` `\'` `;` `=` `+` `-` `@` space, tab, U+FEFF, `//` `%` `!` `*` `|` `,` `\\`, are such a mark alone, or are empty; Viseca text); one record in ten carries no text at all - no payee, no code / reference, no note - so that the header is printed as `DATE * ` with the postings directly below (record:no_payee_no_code_no_note); every record is dated on purpose (harness/src/caldate.rs): a quarter in the days around New Year whose ISO week belongs to the neighbouring year, 1 January / 31 December, 29 February and the 28 February / 1 March of 1900 and 2100, month ends and starts, 1900-01-01 / 2100-12-31 / 1970-01-01 / 2038-01-19 / 2069-12-31, else uniform over 1900-2100 (1970-2069 where the year has two digits: Viseca, CSV `%d.%m.%y`), the records of one statement within a week that reaches or crosses the drawn day; CSV dates under %Y-%m-%d, %Y/%m/%d, %d.%m.%Y, %m/%d/%Y, %d.%m.%y, `%d %b %Y`; Camt053 dates as Dt or (1 in 8) DtTm with offsets up to +14:00 / -12:00; the generator's own date for each CSV record - and in the text-first layout its payee as one line - is checked against the transaction read back, and a statement without a junk cell that the importer refuses is a case (ModelMismatch); whose text fields are drawn from an adversarial pool (`;`, LF/CR/CRLF, injected transaction text, leading `(` `*` `!`, double space, tab, `:tag:`, `key: value`, non-ASCII, outer white space incl. U+3000/U+00A0, 2 kB fields, empty) with varied amounts (grouping commas, scales 0-5; CSV amount / credit / debit / balance / charge / secondary-amount cells bare, commodity-suffixed or prefixed with `$` / a currency code and the minus sign before or after the prefix: -$1.46, $-1,950.25, -USD 5, USD -5; the generator's own figure for each cell - also the rate and the secondary amount of a converted record - is checked against the transaction read back; one CSV statement in five has one amount / credit / debit / balance / charge / secondary-amount / rate cell in a notation okane's number grammar does not know or with trailing junk (6'540.35, 1 234.56, 12.50-, (12.50), +12.50, 1.234,56, 12,50, 1,23,456.78, 12..5, 12.50*, 5 USD EUR, --5, 1.5e0, 12.5x): refused, or read back as that very figure) and configured precisions 0-30; import + to_double_entry, printed as ImportCmd does, re-read with parse_ledger; non-trivial = some text field holds a character outside [A-Za-z0-9 ]; distinct by input + configuration".into();
     st.assumptions.push("account names and the operator (charge payee) come from the configuration and are well-formed account names / plain text; only statement-file text is adversarial".into());
     st.assumptions.push("amount fields of the Camt053 and Viseca statement files are valid numbers; CSV cells may be in a foreign notation or carry trailing junk, never a notation that okane's grammar reads as a different number (1,234 for 1.234)".into());
     let (corpus, replay) = corpus_runs(&o.corpus, &o.extra);
